@@ -67,7 +67,7 @@ var c03Consts = [][2]string{
 	{"{:s 'sym2}", "{:s sym2}"}, {"(with-meta ['e '(throw 98)] {:m 1})", "[e (throw 98)]"}, {"(list [1 'sym1] {:a '(sym2)})", "([1 sym1] {:a (sym2)})"},
 }
 
-var c03Wraps = []string{"fn1", "fn2", "fn3", "m-id", "cond", "or", "and", "thread", "call1", "apply", "let-other", "visit", "visit"}
+var c03Wraps = []string{"fn1", "fn2", "fn3", "m-id", "cond", "or", "and", "thread", "call1", "apply", "let-other", "visit", "visit", "defmacro-value"}
 
 // visitErr is what the harness builtin (visit f) returns when the lisp function it called back failed: a Go
 // error of its own that wraps the callback's error.
@@ -322,6 +322,9 @@ func (n *n3) render() string {
 			return "(let [other 1] " + x + ")"
 		case "visit":
 			return "(visit (fn [] " + x + "))"
+		case "defmacro-value":
+			// x is evaluated as part of the value expression of a macro definition
+			return "(let [r9 (atom nil)] (do (defmacro mz9 (do (reset! r9 " + x + ") (fn [] nil))) (deref r9)))"
 		}
 	case "try":
 		cs := n.CatchSym
